@@ -44,7 +44,7 @@ CHECKS = {
     "C05": (
         "model_checking",
         "Two product families of instances run through the real Instance::evaluate on every state of a per-instance alphabet and compared with an independent reference evaluator: (a) all (active, removed) constraint lists up to 2+2 whose values land on every side of the 1e-6 tolerance (-1,-2e-6,-5e-7,0,5e-7,1e-6,2e-6,1; both equalities; absent/unset functions; removal reasons incl. the empty string) x objectives x variable configurations; "
-        "(b) all 17 kind x bound shapes (incl. binary [1,1] and [0,0]) for a used and for an irrelevant variable x pre-fixed variable x dependency none/single/chain/quadratic, states on the grid, at bound edges +-5e-8 (accepted) and +-2e-7 (rejected), each variable missing, an extra undefined id, a stale value supplied for a dependent variable; dependent values outside the dependent variable's declared bound. Oracle: objective, each constraint exactly once with value/equality/metadata/removal reason, both flags by the tolerance rule, reported state = given + fixed + dependent + nearest-to-zero fill, Err exactly for out-of-bound or missing used variables. Every dependency-map order is enumerated.",
+        "(b) all 17 kind x bound shapes (incl. binary [1,1] and [0,0]) for a used and for an irrelevant variable x pre-fixed variable x dependency none/single/chain/quadratic, states on the grid, at bound edges +-5e-8 (accepted) and +-2e-7 (rejected), each variable missing, an extra undefined id, a stale value supplied for a dependent variable, a different in-bound value still supplied for a variable fixed earlier through the real partial_evaluate (the fixed value must be the one reported); dependent values outside the dependent variable's declared bound. Oracle: objective, each constraint exactly once with value/equality/metadata/removal reason, both flags by the tolerance rule, reported state = given + fixed + dependent + nearest-to-zero fill, Err exactly for out-of-bound or missing used variables. Every dependency-map order is enumerated.",
         "Flags are asserted against the rule applied to the SDK-reported values, which are themselves compared with exact values. Values exactly at bound+-1e-7 are outside the alphabet (skipped_too_close_to_threshold must be 0).",
         "bounded exhaustive enumeration of (instance, state) on the real code vs reference evaluator",
     ),
@@ -116,7 +116,7 @@ CHECKS = {
     ),
     "C18": (
         "model_checking",
-        "Every linear instance of the product: 1..2 (quick) / 1..3 (thorough) used variables with ids {4,9,1} in rotated list order plus an unused variable with the largest id, each over 30 kind x bound specs (incl. endpoints exactly 0, degenerate and huge finite bounds, fractional bounds on integer variables) (continuous/integer x {absent,[0,1],[-3,5],[2,inf),(-inf,4],(-inf,inf),[-5,-1],[0,0],[0,inf),[-3,0],(-inf,0],[1,1]}, binary x {absent,[0,1],[0,0],[1,1]}) x objective forms x constraint lists (0..2, = / <=, constant-only included, ids {40,3}) with function variants rotating over every message type able to hold a linear function incl. unnormalised ones (a term listed twice, unsorted) and a 2^-60 coefficient, names on some variables / constraints, both senses; written with mps::write_file and read back with mps::load_file in a private scratch directory (file called *.mps.gz or *.mps). Oracle: same sense, objective and every constraint equal as polynomials under the same variable and constraint ids with the same equality, same effective value domain (integrality + bounds, unset = unbounded, binary = integer in [0,1]) for every mathematically used variable. One 150-variable x 80-constraint instance (several hundred KB of text). Nonlinear objective / constraint (4 shapes, each position) must be refused with the error variant naming the offender.",
+        "Every linear instance of the product: 1..2 (quick) / 1..3 (thorough) used variables with ids {4,9,1} in rotated list order plus an unused variable with the largest id, each over 34 kind x bound specs (incl. endpoints exactly 0, degenerate and huge finite bounds, fractional bounds on integer variables, a bound whose ends need all 17 significant digits) (continuous/integer x {absent,[0,1],[-3,5],[2,inf),(-inf,4],(-inf,inf),[-5,-1],[0,0],[0,inf),[-3,0],(-inf,0],[1,1]}, binary x {absent,[0,1],[0,0],[1,1]}) x objective forms x constraint lists (0..2, = / <=, constant-only included, ids {40,3}) with function variants rotating over every message type able to hold a linear function incl. unnormalised ones (a term listed twice, unsorted) a 2^-60 coefficient and a form whose coefficient and constant are doubles that need 17 significant digits (0.1+0.2, -(0.7+0.1)), names on some variables / constraints, both senses; written with mps::write_file and read back with mps::load_file in a private scratch directory (file called *.mps.gz or *.mps). Oracle: same sense, objective and every constraint equal as polynomials under the same variable and constraint ids with the same equality, same effective value domain (integrality + bounds, unset = unbounded, binary = integer in [0,1]) for every mathematically used variable. One 150-variable x 80-constraint instance (several hundred KB of text). Nonlinear objective / constraint (4 shapes, each position) must be refused with the error variant naming the offender.",
         "Unnormalised (repeated-id) linear terms are outside the alphabet; variables not mathematically used are not compared (the property restricts to used variables).",
         "bounded exhaustive enumeration of linear instances through the real writer+reader round trip",
     ),
